@@ -45,7 +45,10 @@ pub struct Rule {
 /// * `Option` - Some(index) or None
 fn index_of_neck(chrs: &[char]) -> Option<usize> {
     let mut previous_colon = false;
+    let mut in_quotes = false;  // ":-" between double quotes is text
     for (i, ch) in chrs.iter().enumerate() {
+       if *ch == '"' { in_quotes = !in_quotes; }
+       if in_quotes { previous_colon = false; continue; }
        if *ch == '-' {
            if previous_colon == true { return Some(i - 1); }
        }
